@@ -897,16 +897,19 @@ def _run_acq(spec, o):
                         farg = {_TARGET: fpreds[_TARGET]}
                     xf = np.vstack([rng_h.uniform(X_MARGIN, 1 - X_MARGIN, size=(2, d)), x.reshape(1, -1)])
                     o.ev("foreign_call", name, "grad" if k % 2 else "value")
+                    # (same input shapes on both sides: batched and single-row predictions differ by
+                    # BLAS round-off that the far tails of EI amplify)
                     if rng_h.random() < 0.5:
                         got = np.asarray(acq.compute_acq(np.array(xf), predictor=farg), dtype=float).reshape(-1)
+                        want = np.asarray(acqs_foreign[name].compute_acq(np.array(xf)), dtype=float).reshape(-1)
                     else:
                         got = np.array([float(np.reshape(acq.compute_acq_with_gradient(np.array(r), predictor=farg)[0], (-1,))[0]) for r in xf])
-                    want = np.array([float(np.asarray(acqs_foreign[name].compute_acq(np.array(r).reshape(1, -1))).reshape(-1)[0]) for r in xf])
+                        want = np.array([float(np.asarray(acqs_foreign[name].compute_acq(np.array(r).reshape(1, -1))).reshape(-1)[0]) for r in xf])
                     n_foreign += 1
                     o.count("foreign_predictor_calls")
                     o.count("decided:acq_foreign_value", len(xf))
                     for a_, b_, r_ in zip(got, want, xf):
-                        if (math.isfinite(a_) or math.isfinite(b_)) and not _value_equal(float(a_), float(b_), 1e-8 * abs(float(b_)) + 1e-300):
+                        if (math.isfinite(a_) or math.isfinite(b_)) and not _value_equal(float(a_), float(b_), 1e-300):
                             o.violate("value_with_gradient_equals_value_alone", f"acq_value_for_given_predictor_differs_from_its_own_acq:{name}",
                                       {"via_predictor_argument": a_, "own_acquisition_function": b_, "x": r_, "cell": cell})
                             break
